@@ -226,6 +226,22 @@ def check_codec(ck: Check, w, n, rows):
     if d.tolist() != rows:
         ck.violation(f"C02/codec/roundtrip/w={w}", "decode(encode(s)) != s", {"case": case, "observed": d.tolist()})
         return
+    # every batch size: each row on its own and a few sub-batches must encode to the same words
+    whole = e.tolist()
+    singles = list(range(len(rows)))[-5:] + [0]
+    for lo, hi_ in [(i, i + 1) for i in singles] + [(1, len(rows))]:
+        if hi_ > len(rows) or lo >= hi_:
+            continue
+        try:
+            sub = enc.encode(torch.tensor(rows[lo:hi_], dtype=torch.int64))
+            back = enc.decode(sub).tolist()
+        except (AssertionError, OverflowError, RuntimeError) as ex:
+            ck.violation(f"C02/codec/error/w={w}", f"encode/decode raised on a sub-batch: {type(ex).__name__}: {ex}", {"case": dict(case, rows=rows[lo:hi_])})
+            return
+        ck.evaluations += 1
+        if sub.tolist() != whole[lo:hi_] or back != rows[lo:hi_]:
+            ck.violation(f"C02/codec/batch-dependence/w={w}", "encoding a row depends on the batch it is encoded with (or its round trip fails)", {"case": dict(case, rows=rows[lo:hi_]), "alone": sub.tolist(), "in_batch": whole[lo:hi_], "decoded": back})
+            return
     for r, er in zip(rows, e.tolist()):
         m = drv.ask(f"enc {w} {n} ; {' '.join(map(str, r))}")
         if m != words_line(er):
@@ -447,6 +463,16 @@ def main():
             M = [rng.choice([0, 1, -1, rng.randrange(-(2**40), 2**40)]) for _ in range(n * n)]
             S = [rng.choice([0, 1, -1, 2**62, rng.randrange(-(2**62), 2**62)]) for _ in range(n * m)]
         check_matrix_kernel(ck, n, m, modulo, M, S)
+    # int64 overflow boundary n*(m-1)^2 = 2^63: all-maximal entries for every n up to 16 around it and at the documented extremes
+    for n in range(1, 17):
+        if ck.enough():
+            break
+        boundary = int((2**63 / n) ** 0.5)
+        mods = {2**31, 2**31 - 1, 2**30, 2**30 - 1, 2**30 - 35, 2**29 + 3, 2**28 + 1} | {min(2**31, max(2, boundary + d)) for d in (-2, -1, 0, 1, 2, boundary // 5, -(boundary // 5))}
+        for modulo in sorted(mods) if ck.thorough else rng.sample(sorted(mods), 5):
+            for m in (1, 2):
+                check_matrix_kernel(ck, n, m, modulo, [modulo - 1] * (n * n), [modulo - 1] * (n * m))
+                ck.count("matrix-overflow-boundary")
     check_auto_width(ck)
     ck.assumptions = [
         "IEEE log2 in the 'auto' width is modelled, not verified: compared with the exact bit length for every max in [0, 2^12] (2^16 thorough) and 2^k-1, 2^k, 2^k+1, k<=62 (float inexactness for max >= 2^40 is counted, not judged: the central state's entries are below its length n, and n >= 2^40 is not reachable; first observed at max = 2^49)",
@@ -461,4 +487,6 @@ def main():
 
 
 if __name__ == "__main__":
-    main()
+    from cv.core import run_main
+
+    run_main(main)
